@@ -1,7 +1,7 @@
 """C18 — state-vector sync (DESIGN §4 C18)."""
 import ast
 
-from .common import ctx, returns, calls_in_ctx, reach_from_succ, site, srcs_text, escape_check, self_attr
+from .common import ctx, returns, calls_in_ctx, reach_from_succ, site, srcs_text, escape_check, self_attr, bound_args
 from ..flow import callee_attr
 from ..loader import AnalysisError, norm
 
@@ -298,7 +298,7 @@ def run(R):
         probs.append(f'{len(sends)} sync Interests per call')
     else:
         c = sends[0][1]
-        kw = {k_.arg: ast.unparse(k_.value) for k_ in c.keywords}
+        kw = {k_: ast.unparse(v_) for k_, v_ in bound_args(P, es, c).items()}
         srcs = es.sources(sends[0][0], c.args[0]) if c.args else []
         if not any('self.base_prefix + [' in t and '.encode()' in t for t in srcs_text(srcs)):
             probs.append(f'the Interest name is {srcs_text(srcs)}, expected base_prefix + [encoded vector]')
